@@ -210,7 +210,10 @@ def make_grammar(sw, control_names, utf8=False):
     names = [n for n in control_names if not (on("F_cborseq_shadowed") and n == "cborseq")]
     g["ctlop"] = C(L("."), *([S] if on("F_ctl_space") else []), A(*[L(n, True) for n in names]), *ctl_tail)
     g["type1"] = C(N("type2"), Opt(C(S, A(N("rangeop"), N("ctlop")), S, N("type2"))))
-    headnum = A(N("uint"), C(L("<"), S, N("type"), S, L(">")) if on("F_headnum_space") else C(L("<"), N("type"), L(">")))
+    # (D_lo, F_maximal_munch: a head number is not directly followed by a name character —
+    # the crate reads "#6.0xC" as one hex literal)
+    g["uint_m"] = C(N("uint"), NotNext(ALNUM)) if on("F_maximal_munch") else N("uint")
+    headnum = A(N("uint_m"), C(L("<"), S, N("type"), S, L(">")) if on("F_tag_space") else C(L("<"), N("type"), L(">")))
     t2 = [N("value"), C(N("typename"), Opt(N("genericarg"))),
           C(L("("), S, N("type"), S, L(")")),
           C(L("{"), S, N("group"), S, L("}")),
@@ -220,7 +223,7 @@ def make_grammar(sw, control_names, utf8=False):
           C(L("&"), S, N("groupname"), Opt(N("genericarg"))),
           C(L("#"), L("6"), Opt(C(L("."), headnum)), L("("), S, N("type"), S, L(")")),
           C(L("#"), L("7"), Opt(C(L("."), headnum))),
-          C(L("#"), DIGIT, Opt(C(L("."), N("uint")))),
+          C(L("#"), DIGIT, Opt(C(L("."), N("uint_m")))),
           # restricted reading (D_lo, F_maximal_munch): a bare "#" is not followed by (white
           # space and) a digit or "(" — the crate reads "# 7" / "#(" as one tag expression
           C(L("#"), NotAhead(C(S, A(DIGIT, L("("))))) if on("F_maximal_munch") else L("#")]
